@@ -28,6 +28,7 @@ def main():
 
 
 UNITS = [("registry", tables.registry, "GemVerif/Gen/Registry.lean")]
+UNITS.append(("datagen", __import__("translator.datagen", fromlist=["datagen"]).datagen, "GemVerif/Gen/DataGen.lean"))  # C20
 
 if __name__ == "__main__":
     main()
